@@ -236,6 +236,49 @@ def run_somersault(task: Tuple, col: common.Collector) -> None:
     col.count("somersault-parts")
 
 
+def unimplemented_layer() -> Dict[str, Any]:
+    """Parameter kinds that ODX defines and the parser reads, but whose coding odxtools does not
+    implement (DYNAMIC, TABLE-ENTRY): a description using them is still 'a description'."""
+    from ..odxgen import dct_std, dop, p_value, u8const
+    dobjs = [dop("u8", dct_std("A_UINT32", 8)),
+             {"t": "STRUCT", "name": "st", "params": [p_value("a", "u8")]},
+             {"t": "TABLE", "name": "tab", "key_dop": "u8", "semantic": "X",
+              "rows": [{"name": "r1", "key": 1, "struct": "st"}]}]
+    rqs = [{"name": "rq_dyn", "shape": "DYNAMIC-param", "feat": {"shape": "DYNAMIC-param"},
+            "params": [u8const("sid", 0x22), {"p": "DYNAMIC", "name": "d", "byte": None, "bit": None},
+                       p_value("x", "u8")]},
+           {"name": "rq_te", "shape": "TABLE-ENTRY-param", "feat": {"shape": "TABLE-ENTRY-param"},
+            "params": [u8const("sid", 0x23),
+                       {"p": "TABLE-ENTRY", "name": "te", "byte": None, "bit": None,
+                        "row": ("tab", "r1"), "target": "KEY"}, p_value("x", "u8")]},
+           {"name": "rq_plain", "shape": "plain", "feat": {"shape": "plain"},
+            "params": [u8const("sid", 0x24), p_value("x", "u8")]}]
+    return {"kind": "BASE-VARIANT", "name": "unimplemented", "dobjs": dobjs, "requests": rqs,
+            "pos": [], "neg": [], "gneg": [],
+            "services": [{"name": "svc_" + r["name"], "request": r["name"], "pos": [], "neg": []}
+                         for r in rqs]}
+
+
+def run_unimplemented(task: Tuple, col: common.Collector) -> None:
+    from .. import odxgen
+    model = unimplemented_layer()
+    try:
+        layer = odxgen.load_layer(model)
+    except Exception as e:
+        col.fail_inconclusive(f"layer with DYNAMIC / TABLE-ENTRY parameters does not load: {e}")
+        return
+    for svc in layer.services:
+        rq = svc.request
+        shape = next(m["shape"] for m in model["requests"] if m["name"] == rq.short_name)
+        sid = next(m["params"][0]["value"] for m in model["requests"] if m["name"] == rq.short_name)
+        det = {"layer": "unimplemented", "request": rq.short_name}
+        for b in (bytes([sid, 1, 2]), bytes([sid, 1]), bytes([sid]), bytes([sid, 1, 2, 3, 4])):
+            judge(col, "request", shape, "valid", rq.decode, (b,), 4, b, det)
+            judge(col, "layer.decode", shape, "valid", layer.decode, (b,), 12, b, det)
+            judge(col, "service.decode_message", shape, "valid", svc.decode_message, (b,), 4, b, det)
+    col.count("unimplemented-kinds-probed")
+
+
 def run_snoop(task: Tuple, col: common.Collector) -> None:
     """the snoop tool's handler as a caller of DiagLayer.decode / decode_response"""
     kind, arg, tier, wseed = task
@@ -283,6 +326,7 @@ def run(tier: str, col: common.Collector) -> None:
         stasks.append(("generated", c06.build_layer(i, [(s, list(c)) for s, c in sp], r6, i % 3), tier,
                        seed * 13 + i))
     common.pmap(run_snoop, stasks, col)
+    common.pmap(run_unimplemented, [(tier,)], col)
     for need in ("cell:STD", "cell:MINMAX", "cell:LEAD", "cell:compose", "somersault-parts",
                  "step-counted-calls", "outcome:returned", "outcome:DecodeError",
                  "snoop:request", "snoop:response", "snoop:tester", "snoop:unrecognized",
